@@ -16,6 +16,13 @@ Sub-checks
            machines predict which dataset / weights / projection are in effect; compared numerically (c13.loss_value,
            c13.invw; relative entropy: harness-side formula) and against fresh objects (history independence)
   witness  the witnesses of the ..._refuted theorems (code before the fixes) replayed: they must NOT reproduce
+  pure     array helper functions of quara.utils.matrix_util / quara.math (what objects, losses and estimators call on the user's
+           data): arguments unchanged (float64 / complex128 arrays, probability vectors with an exact 0 in every position), repeatable
+  sampling MProcess(mode_sampling=True, seed): compositions are determined by the arguments, not by numpy's global generator
+  tomo     the four tomography classes: queries repeatable, objects handed out are independent of the tomography object and of each
+           other (every public mutator applied), LinearEstimator re-used over data sets = fresh estimator, data unchanged
+  derived  every object-returning operation followed by every query on the derived object = the query on a value-identical object
+           built from fresh arrays; derived objects own their arrays
   factory  every func_calc_* function factory of pool objects of all four classes (default and non-default configuration), with
            EVERY combination of its arguments: the object is unchanged (all public attributes + arrays), the function equals the
            one built from a fresh copy, keeps its outputs on probe vectors when the object is re-configured / zeroed afterwards,
@@ -2309,7 +2316,8 @@ def run(ctx):
                 "built from small rationals (physical and non-physical, unequal outcome counts, asymmetric); every result compared (1e-10) with the same "
                 "call on fresh deep copies in a fresh world, SHA-1 byte snapshots of every pool object and basis before/after; non-trivial = the call "
                 "returned a value (error branches are compared but counted trivial); snapshots cover every public property; functions returned by the "
-                "func_calc_* factories are derived objects observed on fixed probe vectors after every later operation. factory: all 6 factories x all "
+                "func_calc_* factories are derived objects observed on fixed probe vectors after every later operation; returned objects must own their arrays. "
+                "pure / tomo / derived / sampling: deterministic sweeps (tables in the source), boundary data with an exact zero probability in every position. factory: all 6 factories x all "
                 "argument combinations (3 / 27) on 8 (thorough 15) objects with default and non-default configuration. cache: get/delete sequences with the Coq machine alongside. "
                 "loss/algo: re-configuration sequences over 4 datasets x 5 weighting modes (2 for relative entropy) with setter calls in between; "
                 "every step evaluated on the re-used object, on a fresh object and by the Coq machine of the repaired code + numerical model; "
